@@ -260,12 +260,21 @@ class ContainerMixin:
             q.env[var] = RefV(x, "Node")
             q.assume(x != L.NONE)
             acc = z3.BoolVal(True)
-            for c in conds:
-                RR: list = []
-                outs = self.ev(c, q, RR)
-                if len(outs) != 1 or RR:
-                    raise Unsupported("comprehension condition forks or may raise")
-                acc = And(acc, self.truthy(outs[0][1], outs[0][0]))
+            saved_pb, saved_ob = getattr(self, "pure_bool", False), len(self.obligations)
+            self.pure_bool = True
+            try:
+                for c in conds:
+                    RR: list = []
+                    outs = self.ev(c, q, RR)
+                    if len(outs) != 1 or RR:
+                        raise Unsupported("comprehension condition forks or may raise")
+                    acc = And(acc, self.truthy(outs[0][1], outs[0][0]))
+            finally:
+                self.pure_bool = saved_pb
+            # safety obligations of the condition are generated once, on a universally quantified element
+            if getattr(self, "_phi_seen", None) == id(conds):
+                del self.obligations[saved_ob:]
+            self._phi_seen = id(conds)
             return acc
 
         res = L.fresh("flt", L.LRef)
